@@ -2,22 +2,27 @@
 use vcore::SubCheck;
 
 pub mod util;
+pub mod c02;
 pub mod c03;
 pub mod c05;
 pub mod c08;
 pub mod c09;
 pub mod c11;
 pub mod c12;
+pub mod c17;
 pub mod codec;
+pub mod mini;
 
 pub fn main() -> i32 {
     util::install_panic_hook();
     let mut checks: Vec<Box<dyn SubCheck>> = vec![];
+    checks.extend(c02::checks());
     checks.extend(c03::checks());
     checks.extend(c05::checks());
     checks.extend(c08::checks());
     checks.extend(c09::checks());
     checks.extend(c11::checks());
     checks.extend(c12::checks());
+    checks.extend(c17::checks());
     vcore::driver("vp-inproc", checks)
 }
